@@ -23,7 +23,7 @@ RULE = ("case = user {MD5, SHA-1} x {authNoPriv, authPriv} x operation {get, mul
         "which response of the operation is attacked x mutant {bit i of the authentic response | forgery (msgFlags 0..7, digest "
         "none / zeros / original / truncated 1..11 / 13 octets / garbage / re-signed with another password, algorithm, or the key of a second legitimate user the client talked as before, user "
         "name same / other / empty, engine id same / other, payload: attacker bindings in clear / authentic plaintext in clear / "
-        "original body / garbage ciphertext / Report with usmStats, arbitrary or no bindings, error-status 0 or 2)}; non-trivial "
+        "attacker bindings in clear under another PDU class (Trap, Inform, request PDUs) / original body / garbage ciphertext / Report with usmStats, arbitrary or no bindings, error-status 0 or 2)}; non-trivial "
         "= the mutant differs from the authentic response and still parses as BER under the independent decoder; distinct = "
         "the mutant's SHA-1")
 ASSUMPTIONS = [
@@ -150,6 +150,11 @@ def forge(agent, req, resp, spec):
         body = vber.tlv(m["body_tag"], m["body"])
     elif p == "evil_plain":
         body = vber.enc_scoped_pdu(req["ctx_engine"], req["ctx_name"], vber.enc_pdu(vber.PDU_RESPONSE, rid, 0, 0, evil_vbs))
+        salt = b"" if spec.get("drop_salt") else salt
+    elif p == "evil_plain_tag":
+        # the attacker's bindings under another PDU class (a notification, a request) with the pending request id
+        tag = [0xA7, 0xA6, 0xA0, 0xA1, 0xA3, 0xA5, 0xA7, 0xA7][spec.get("n", 0) % 8]
+        body = vber.enc_scoped_pdu(req["ctx_engine"], req["ctx_name"], vber.enc_pdu(tag, rid, 0, 0, evil_vbs))
         salt = b"" if spec.get("drop_salt") else salt
     elif p == "plain_authentic":
         body = req["response_scoped"]
@@ -331,6 +336,15 @@ def run_case(case) -> Result:
         return Result(None, nontrivial, classes, key=key)
     if res == want:
         classes.append("authentic_result")
+        if (case["kind"] == "forgery" and case["spec"]["payload"].startswith("report") and not case["spec"]["flags"] & 1
+                and not st8.get("disco_forged") and parses):
+            # "The only unauthenticated content ever acted upon is a Report, and it can only surface as an error": here the
+            # attacked answer was REPLACED by an unauthenticated Report, yet the call returned (the client must have gone on
+            # to repeat the request on the strength of it)
+            return Result("%s %s, response #%d replaced by an UNAUTHENTICATED Report (%r): the call returned normally (%r) -- the "
+                          "Report did not surface as an error; data requests seen by the agent: %d" % (
+                              vworld.proto_label(proto), op, at, case["spec"], res,
+                              len([r for r in agent.log if not r.get("discovery")])), nontrivial, classes, key=key)
         return Result(None, nontrivial, classes, key=key)
     return Result("%s %s, attacked response #%d, %s: the caller got %r without an exception; the authentic response carried %r "
                   "(mutant %s)" % (vworld.proto_label(proto), op, at,
@@ -373,7 +387,7 @@ SPEC = st.fixed_dictionaries(dict(
                             "resign_otherpw", "resign_otherpw", "resign_trunc", "resign_otheralgo", "resign_monitor", "resign_monitor"]),
     user=st.sampled_from(["same", "same", "same", "other", "empty"]),
     engine=st.sampled_from(["same", "same", "same", "other"]),
-    payload=st.sampled_from(["evil_plain", "evil_plain", "evil_plain", "plain_authentic", "orig", "garbage_cipher",
+    payload=st.sampled_from(["evil_plain", "evil_plain", "evil_plain", "evil_plain_tag", "evil_plain_tag", "plain_authentic", "orig", "garbage_cipher",
                              "report_usm", "report_usm", "report_any", "report_any", "report_empty", "report_empty"]),
     then_disco=st.sampled_from([None, None, None, "es2", "es2", "es5_response", "other_engine", "other_time", "novb"]),
     es=st.sampled_from([0, 0, 2, 5]), ei=st.sampled_from([0, 1]), n=st.integers(0, 23), drop_salt=st.booleans()))
